@@ -960,4 +960,27 @@ example : scopeSpec fullRoot.erase [0] 2 = some 2 :=
     (.node (.element 3) [.node (.attribute 3 ['v']) []]) (by decide) ((PStore.init Env.fresh).run fullCalls).env
     [(2, 2)] (by decide +kernel) 2 2).mp (by decide)).2.1
 
+/-! ## Histories with the convenience calls
+
+  The same for histories mixing the calls of `Op` and the convenience calls (`Forest.COp`; `creationRun`,
+  `C04_reach_creation` in Props/C04.lean): no side condition at all. -/
+
+/-- ⟦C09_reachable_creation_unique⟧ No element of any subtree of any tree reached by a history of `Op` calls and
+    convenience calls (`set_namespace`, `append_namespace`, … included) declares a prefix twice. -/
+theorem C09_reachable_creation_unique (ops : List (Op ⊕ Forest.COp)) :
+    ∀ r ∈ (creationRun ops).roots, ∀ (path : Path) (sub : Tree),
+      r.erase.at? path = some sub → UniqueDeclsBelow sub :=
+  fun _ hr _ _ hs => Reach.uniqueDeclsBelow_root (C04_reach_creation ops) hr hs
+
+/-- ⟦C09_reachable_creation_unresolved⟧ `unresolved_namespaces(node)` for every node of every such tree
+    (`C09_reachable_unresolved` for these histories). -/
+theorem C09_reachable_creation_unresolved (ops : List (Op ⊕ Forest.COp)) :
+    ∀ r ∈ (creationRun ops).roots, ∀ (path : Path) (sub : Tree),
+      r.erase.at? path = some sub → ∀ (env' : Env) (l : List Nat),
+      unresolvedNamespaces env' r.erase path = some l → ∀ ns : Nat,
+      (ns ∈ l ↔ ∃ q chain e, sub.ancestorsOrSelf q = some chain ∧ sub.at? q = some e ∧
+        NeedsNs env' (scopeOf (elementFrames chain)) e ns) :=
+  fun r hr path sub hs env' l hl ns =>
+    C09_unresolved env' r.erase path sub l hs (C09_reachable_creation_unique ops r hr path sub hs) hl ns
+
 end XotModel.Props
